@@ -325,7 +325,17 @@ class LayerFoldFrame(Target):
                 ('parsed-files-are-left-alone', all(st.handed_out[p] == PARSED[p] for p in st.order))]
 
 
+import contracts.C17 as _c17
+
+
+class EnvironmentsAreAFunctionOfTheMaps(_c17.EnvironmentWithName):
+    """'the same ... environments ... independent of dictionary ordering': the resolved environment equals a specification
+    that is a function of the environment MAPS (which variable has which value) -- C17's contract of environmentWithName --
+    so two equal documents that list the variables in a different order resolve to the same environment."""
+    prop = 'C15'
+
+
 TARGETS = [VariableFilesOrder(), VariableFilesOrderParametrize(), LayerFold(), HashSerialisation(), HashEnvironment(),
-           ReadUserVariables(), LayerFoldFrame()]
+           ReadUserVariables(), LayerFoldFrame(), EnvironmentsAreAFunctionOfTheMaps()]
 LEMMAS = []
 BOUNDED = [UnorderedInventory()]
